@@ -323,6 +323,11 @@ func (s *BaseNodeService) verifyMessage(fsmInstance *state_machines.FSMInstance,
 		return fmt.Errorf("failed to GetPubKeyByUsername: %w", err)
 	}
 
+	// ed25519.Verify panics on a key of a wrong length, and the opening proposal of a round is not signature-checked
+	if len(senderPubKey) != ed25519.PublicKeySize {
+		return errors.New("sender's public key has a wrong length")
+	}
+
 	if !ed25519.Verify(senderPubKey, message.Bytes(), message.Signature) {
 		return errors.New("signature is corrupt")
 	}
